@@ -182,7 +182,8 @@ def api_oracle(ops, lines, known=None):
         elif t[0] == "parspub":
             k_, n_ = res[5:].split("/")
             if k_ != n_:
-                sent = sum(1 for m in msgs if msg_json(m)[1] == "C"); acks = sum(1 for m in msgs if msg_json(m)[1] == "S")
+                sent = sum(1 for m in msgs if msg_json(m)[1] == "C")
+                acks = sum(1 for m in msgs if msg_json(m)[1] == "S" and isinstance(msg_json(m)[2], dict) and "ack" in msg_json(m)[2])
                 if known and sent == int(n_) and acks == int(n_):
                     known("F16", "spub files its callback under the stream's transaction id: of several spub calls in flight on one stream only the last one's caller is answered, the others never resolve (lib.rs Command::SPub)")
                 else:
@@ -244,6 +245,7 @@ def run(v, tier, seed):
         v.violation({"what": "client model and client library disagree; every call resolved with its own answer and the buffer sent what it was given on every observed trace", "case": nm, "engine": "client", "driver": "client_driver",
                      "ops": ops[:step + 1], "ops_readable": [decode_tok(o) for o in ops[:step + 1]], "step": step, "impl": decode_tok(x)[:1500], "model": decode_tok(y)[:1500], "disagreeing_cases": len(diffs),
                      "broken_obligation": "correspondence client/C20 (Model/Client.v on_cmd / on_msg / result_of / bstep over Model/Session.v)"}, no_input=True)
-    v.cov.update({"evaluations": ncases, "distinct_nontrivial": len(nontrivial), "steps": nsteps, "disagreements": len(diffs), "api_calls": calls, "concurrent_tasks": partasks, "buffered_values": laters,
+    samples = [{"case": nm, "ops": [decode_tok(o) for o in ops][:30], "observed": [decode_tok(l)[:400] for l in A.get(nm, [])][:30]} for nm, ops in cases if nm in nontrivial][:2]
+    v.cov.update({"evaluations": ncases, "distinct_nontrivial": len(nontrivial), "steps": nsteps, "disagreements": len(diffs), "samples": samples, "api_calls": calls, "concurrent_tasks": partasks, "buffered_values": laters,
                   "rule": f"the real worterbuch-client library over a unix socket against a real in-process server, through a recording proxy (every line the library sends and receives is observed); corpus (the F14/F15 demonstration) + {n} random scripts on two connections: all awaited calls (set, cset, get, cget, pget, delete, pdelete, ls, publish, spub_init/spub, lock), fire-and-forget calls, subscribe / psubscribe / subscribe_ls with their event streams, unsubscribe of either kind awaited or not, batches of 2..12 concurrent tasks on cloned handles (3 calls each), send-buffer bursts (repeated keys, set and publish on the same key) followed by a pause of 3 x delay; compared per step with Client model over Session model: the API result, every client and server message with its transaction id (per connection, ordered by id; concurrent steps without ids, sorted), the subscription events; independent oracle: key/value reference for typed results, own-value read-back per concurrent task, exactly-the-latest-per-key for the buffer, silence after unsubscribe",
                   "not_covered": "task scheduling inside the library beyond the interleavings that occurred; timing closer than 3 x delay around the buffer's timer; tcp and websocket transports; typed (serde) conversion of values beyond serde_json::Value"})
